@@ -20,6 +20,8 @@ META = {
         'R6': 'Sphere::from_two_points: both points at distance radius from the centre; centre is the midpoint',
         'R7': 'Sphere::from_three_points: three points equidistant (= radius) from a centre lying in their plane',
         'R8': 'Sphere::from_four_points: four points equidistant (= radius) from the centre',
+        'R10': 'Sphere::contains (the test on which extend leaves the sphere unchanged, and which Plane::intersects_sphere uses) is the containment test at every length scale: '
+               'contains(x) <=> r > 0 and |x - c|^2 <= k * r^2 with a constant 1 <= k <= 1 + 1e-6 — a relative tolerance only; an absolute term would make small spheres "contain" far points',
         'R9': 'Sphere::extend: the new sphere has the point and the antipode of the old sphere on its boundary (radius (r+s)/2, centre on the segment); unchanged when the point is contained',
     },
     'explanation': 'Decides the whole statement over the reals: every exported helper of meshless_voronoi::geometry is '
@@ -39,7 +41,7 @@ def run(ctx):
     for cfg in ctx.configs_used:
         F = ctx.facts(cfg)
         sfx = '' if cfg == 'default' else '@' + cfg
-        for fn in (r1, r2, r3, r4, r5, r6, r7, r8, r9):
+        for fn in (r1, r2, r3, r4, r5, r6, r7, r8, r9, r10):
             rule = 'C19.' + fn.__name__.upper()
             ctx.guarded(rule, 'evaluate' + sfx, lambda: fn(ctx, F, rule, sfx))
 
@@ -234,3 +236,72 @@ def r9(ctx, F, rule, sfx):
     ctx.check(rule, 'antipode-on-boundary' + sfx, dist2(c_out, opp) == r_out * r_out, "|c'-opp|^2 vs r'^2", 'equal', where(body))
     # centre on the segment: (c'-c) x (x-c) == 0
     ctx.check(rule, 'centre-on-segment' + sfx, is_zero_vec(cross3(vsub(c_out, C), vsub(X, C))), "(c'-c) x (x-c)", '0', where(body))
+
+
+def r10(ctx, F, rule, sfx):
+    from .. import dtab
+    body = F.body(G + 'Sphere::contains')
+    ip = I.Interp(F)
+    cen, rad = I.sym_vec3('c'), RF.sym('r')
+    sph = I.St('geometry::Sphere', 'Sphere', {'center': cen, 'radius': rad})
+    x = I.sym_vec3('x')
+    v, _ = ip.call_body(body, [ip.ref_to(sph), x])
+    ctx.evaluations += ip.evaluations
+    w = where(body)
+    if not isinstance(v, I.B):
+        raise AnalysisIncomplete('contains does not evaluate to a condition: %r' % (v,))
+    d2 = dist2(c3(x), c3(cen))
+    leaves = list(dtab.b_leaves(v).values())
+    pos, dist = [], []
+    other = []
+    for l in leaves:
+        if l.op != 'cmp':
+            other.append(l)
+            continue
+        op, a, b = l.args
+        a, b = as_rf(a), as_rf(b)
+        # normalise to  lhs <= / < rhs
+        if op in ('>', '>='):
+            a, b, op = b, a, {'>': '<', '>=': '<='}[op]
+        if op in ('<', '<=') and a.is_zero() and b == rad:
+            pos.append(l)
+        elif op in ('<', '<=') and a == d2:
+            k = b / (rad * rad)
+            dist.append((l, k))
+        elif op in ('<', '<=') and a * a == d2 * 1 and False:
+            pass
+        else:
+            # distance (not squared) form: sqrt(d2) <= k' r
+            if op in ('<', '<=') and a == nf.fn_sqrt(d2):
+                k = (b / rad)
+                dist.append((l, k * k))
+            else:
+                other.append(l)
+    ok_shape = len(pos) <= 1 and len(dist) == 1 and not other
+    obs = repr(v)[:200]
+    if ok_shape:
+        l, k = dist[0]
+        ok_k = k.is_const() and 1 <= k.const_value() <= 1 + Fraction(1, 10 ** 6)
+        obs = '|x-c|^2 <= k r^2 with k = %s%s' % ((('1 + %.3g' % float(k.const_value() - 1)) if k.is_const() else repr(k)[:80]), ' and r > 0' if pos else '')
+        # the condition must be the conjunction (containment may not be granted by any other disjunct)
+        def val_for(dist_true, pos_true):
+            def val(leaf):
+                if leaf.key() == l.key():
+                    return dist_true
+                return pos_true
+            return val
+        tt = dtab.evaluate(v, val_for(True, True))
+        ft = dtab.evaluate(v, val_for(False, True))
+        ok_shape = tt is True and ft is False
+    else:
+        ok_k = False
+    ctx.check(rule, 'contains-is-relative-containment' + sfx, ok_shape and ok_k, obs, 'r > 0 and |x-c|^2 <= k r^2, k constant in [1, 1+1e-6]', w, key_extra='contains')
+    # users: extend branches on exactly contains(self, x) of its own arguments (R9 checks the arms); intersects_sphere tests the projection of the centre
+    pb = F.body(G + 'Plane::intersects_sphere')
+    ip2 = I.Interp(F, no_inline=[G + 'Sphere::contains', G + 'Plane::project_onto'])
+    pl = I.Sym(nf.sym_atom('plane'), 'geometry::Plane')
+    sp = I.Sym(nf.sym_atom('sphere'), 'geometry::Sphere')
+    ip2.call_body(pb, [ip2.ref_to(pl), ip2.ref_to(sp)])
+    ce = [e for e in ip2.events if e.callee == G + 'Sphere::contains']
+    ok = len(ce) == 1 and repr(ce[0].fargs[0]) == 'sphere' and 'project_onto(plane, sphere.center)' in repr(ce[0].fargs[1]).replace('geometry::Plane::', '')
+    ctx.check(rule, 'plane-sphere-test-uses-the-projected-centre' + sfx, ok, [repr(a)[:80] for a in ce[0].fargs] if ce else 'no contains call', 'sphere.contains(plane.project_onto(sphere.center))', where(pb), key_extra='intersects')
